@@ -63,6 +63,12 @@ def gen_cases(tier, seed):
         la, lb = int(rng.integers(0, 4)), int(rng.integers(0, 4))
         shells, classes = bases.tight_far_pair(rng, la, lb)
         cases.append({"shells": shells, "classes": classes + ["l:%d,%d" % (la, lb), "nsh:2"], "cost": 30})
+    # tight shells about one width apart
+    for k in range(8 if tier == "quick" else 64):
+        rng = bases.rng_for("C02", seed, tier, "tight-near", k)
+        la, lb = int(rng.integers(0, 3)), int(rng.integers(0, 3))
+        shells, classes = bases.tight_near_pair(rng, la, lb)
+        cases.append({"shells": shells, "classes": classes + ["l:%d,%d" % (la, lb), "nsh:2"], "cost": 30})
     cases += bases.dup_variants("C02", seed, tier, cases, 9)  # one shell listed twice as the same object
     cases += bases.argrep_variants("C02", seed, tier, cases, 7, ok=lambda c: "shells" in c and c.get("kind") in (None, "whole", "kernel", "perm", "real"))  # constructor arguments in other in-memory representations
     return cases
